@@ -120,6 +120,8 @@ pub struct StateMachine<'a> {
     pub minus_line_counter: AmbiguousDiffMinusCounter,
     // Position inside a `GIT binary patch` block of a diff header.
     pub in_binary_patch: BinaryPatch,
+    // The header of this file section gives mode 160000: a submodule.
+    pub in_submodule_section: bool,
 }
 
 pub fn delta<I>(lines: ByteLines<I>, writer: &mut dyn Write, config: &Config) -> std::io::Result<()>
@@ -149,6 +151,7 @@ impl<'a> StateMachine<'a> {
             blame_key_colors: HashMap::new(),
             minus_line_counter: AmbiguousDiffMinusCounter::not_needed(),
             in_binary_patch: BinaryPatch::No,
+            in_submodule_section: false,
         }
     }
 
@@ -172,6 +175,15 @@ impl<'a> StateMachine<'a> {
             }
 
             self.flush_submodule_short_minus_commit()?;
+
+            if matches!(self.state, State::DiffHeader(_))
+                && self.line.ends_with(" 160000")
+                && ["index ", "new file mode ", "deleted file mode "]
+                    .iter()
+                    .any(|s| self.line.starts_with(s))
+            {
+                self.in_submodule_section = true;
+            }
 
             // A merge conflict region which is never closed ends with its hunk: show the
             // lines collected so far before anything that is not a hunk line.
